@@ -587,6 +587,40 @@ fn run_history(run: &Run, idx: u64, h: &mut Hist, sc: &Scratch, stats: &mut Stat
 						}
 						None => None,
 					}
+				} else if prng.chance(1, 2) {
+					// an honest block that is still to come (its parent is there), with its own header but a body that
+					// cannot be right: range proofs of two outputs swapped, or the first kernel's signature damaged.
+					// Refusing it must not be remembered against the header: the genuine block follows later
+					// (the twin node, which never sees this copy, accepts it)
+					let cand: Vec<usize> = remaining.iter().cloned().filter(|&i| delivered.contains(&h.blocks[i].parent)).collect();
+					if cand.is_empty() {
+						None
+					} else {
+						let i = *prng.pick(&cand);
+						let mut b = h.blocks[i].block.clone();
+						let swapped = b.body.outputs.len() >= 2 && prng.bool();
+						if swapped {
+							let x = b.body.outputs[0].proof;
+							b.body.outputs[0].proof = b.body.outputs[1].proof;
+							b.body.outputs[1].proof = x;
+						} else {
+							let mut sig = b.body.kernels[0].excess_sig.as_ref().to_vec();
+							sig[40] ^= 0x10;
+							b.body.kernels[0].excess_sig = grin_util::secp::Signature::from_raw_data(&{
+								let mut a = [0u8; 64];
+								a.copy_from_slice(&sig);
+								a
+							})
+							.expect("signature bytes");
+						}
+						let on_fork = h.blocks[i].parent != head;
+						Some(Bad::Block {
+							class: if swapped { "body_copy_of_a_block_to_come_proofs_swapped" } else { "body_copy_of_a_block_to_come_signature_damaged" },
+							block: b,
+							header_valid: true,
+							on_fork,
+						})
+					}
 				} else {
 					// undecodable bytes: an honest block cut short
 					let i = prng.usize_below(n_honest);
@@ -814,6 +848,10 @@ fn main() {
 	for c in BLOCK_CLASSES {
 		let n = run.counter(&format!("rejected.{}", c)) + run.counter(&format!("rejected.{}@fork", c));
 		run.require(&format!("rejected.{}(+@fork)", c), n, run.tier.pick(1, 8));
+	}
+	for c in ["body_copy_of_a_block_to_come_proofs_swapped", "body_copy_of_a_block_to_come_signature_damaged"] {
+		let n = run.counter(&format!("rejected.{}", c)) + run.counter(&format!("rejected.{}@fork", c));
+		run.require(&format!("rejected.{}(+@fork), the genuine block delivered afterwards", c), n, run.tier.pick(3, 30));
 	}
 	run.require("bad blocks on an ancestor of the head (rewind only, nothing re-applied)", run.counter("bad_blocks_on_an_ancestor_of_the_head"), run.tier.pick(20, 200));
 	run.require("valid forks reaching exactly the head's cumulative difficulty", run.counter("valid_forks_reaching_exactly_the_heads_work_accepted_without_effect"), run.tier.pick(20, 200));
